@@ -408,7 +408,8 @@ func stableStatus(ctl *sched.Ctl, name string, id *int64, mu *sync.Mutex) string
 }
 
 // runLts replays a schedule of the fetch/rollover transition system (coq/Model/C10HlsLts.v) on the real
-// Playlist/SegmentGenerator.  The writer goroutine parks before every frame; a fetch goroutine parks at the
+// Playlist/SegmentGenerator.  The writer goroutine parks before every frame and at hls.segment.listed (end of
+// segmentClose, the segment has just been listed); a fetch goroutine parks at the
 // schedule point hls.segment.get (segment found, in the code as it is still holding the playlist read lock).
 // case = ( cfg frames sched ); observation = ( results blocked ).
 func runLts(c Val) Val {
@@ -440,7 +441,7 @@ func runLts(c Val) Val {
 			return true
 		}
 		if thread == "writer" {
-			return point == "w.frame"
+			return point == "w.frame" || point == "hls.segment.listed"
 		}
 		return point == "hls.segment.get"
 	}
@@ -490,7 +491,9 @@ func runLts(c Val) Val {
 	for _, lab := range c.At(2).List() {
 		switch lab.At(0).Int() {
 		case 0:
-			if wstatus() == "w.frame" {
+			// from before a frame up to the listing of the segment it closes (or to the next frame), or from the
+			// listing through the rest of the frame
+			if st := wstatus(); st == "w.frame" || st == "hls.segment.listed" {
 				ctl.Step("writer")
 				wstatus()
 			}
